@@ -41,7 +41,7 @@ def run(c):
     c.lean(MODULES, THEOREMS, sources=["TLVerif.Codec.TL2", "TLVerif.Codec.TL2Lemmas", "TLVerif.Codec.TL2RoundTrip"])
     model, schemas = t2.prepare(c, t2.corpus(c) + [bit_schema()])
     rng = c.rng
-    per = 24 if c.thorough else 5
+    per = 12 if c.thorough else 5
     replay = set()
     if c.replay:
         for f in c.replay.get("failures", []):
